@@ -225,6 +225,10 @@ BLOCKS = {
     'prog_counter_probe': ('program', 'R', '\\newcounter{qpcount}\\stepcounter{qpcount}D\\arabic{qpcount}.%(n)s\n'),
     'prog_newif': ('program', 'W', '\\ifqpflag T\\else F\\fi%(n)s.\n'),
     'prog_userdata': ('program', 'W', 'Userdata u%(n)s.\n'),
+    'footmark_dangling': ('pkgtable', 'W', 'Dangling mark\\footnotemark{} here%(n)s.\n'),
+    'footmark_pair': ('pkgtable', 'R', '\\begin{tabular}{l}price\\footnotemark\\end{tabular}\\footnotetext{note%(n)s} and plain\\footnote{fn}.\n\n'),
+    'bib_a': ('pkgtable', 'W', 'Cite \\cite{ka%(n)s}.\\begin{thebibliography}{9}\\bibitem{ka%(n)s} A one.\\bibitem{kb} A two.\\end{thebibliography}\n'),
+    'bib_b': ('pkgtable', 'R', 'Cite \\cite{kc} and \\cite{kd}.\\begin{thebibliography}{9}\\bibitem{kc} B one.\\bibitem{kd} B two%(n)s.\\end{thebibliography}\n'),
     'color_define_a': ('pkgtable', 'W', '\\definecolor{accent}{rgb}{1,0,0}\\textcolor{accent}{red%(n)s} \\colorbox{accent}{box}.\n'),
     'color_define_b': ('pkgtable', 'R', '\\definecolor{accent}{rgb}{0,0,1}\\textcolor{accent}{blue%(n)s} \\colorbox{accent}{box} \\textcolor[gray]{0.5}{g}.\n'),
     'url_dashes': ('pkgtable', 'R', 'See \\url{http://example.org/one--two} u%(n)s.\n\n'),
@@ -763,7 +767,8 @@ def enumerate_cases(base_seed, tier):
     topic_pairs = [('xcolor_define', 'xcolor_use'), ('xcolor_define', 'xcolor_provide'), ('xcolor_redefine', 'xcolor_use'),
                    ('amsthm_style', 'amsthm_plain'), ('amsopn_declare', 'amsopn_provide'), ('hypersetup', 'href_plain'),
                    ('natbib_style', 'natbib_cite'), ('index_entries', 'index_print'), ('lstset', 'lstlisting'),
-                   ('floatstyle', 'captionname'), ('color_define_a', 'color_define_b'), ('href_dashes', 'url_dashes'),
+                   ('floatstyle', 'captionname'), ('footmark_dangling', 'footmark_pair'), ('bib_a', 'bib_b'), ('bib_b', 'bib_b'),
+                   ('color_define_a', 'color_define_b'), ('href_dashes', 'url_dashes'),
                    ('prog_coltype_right', 'prog_coltype_center'), ('prog_charsubs', 'dots_probe'), ('prog_macro', 'prog_macro_probe'),
                    ('prog_counter', 'prog_counter_probe')]
     for w, x in topic_pairs:
